@@ -10,7 +10,8 @@ use mantra_dex_std::farm_manager::{EpochId, Farm, RewardsResponse};
 
 use crate::helpers::get_unique_lp_asset_denoms_from_positions;
 use crate::state::{
-    get_earliest_address_lp_weight, get_farms_by_lp_denom, get_latest_address_lp_weight,
+    get_address_lp_weight_at_or_before, get_earliest_address_lp_weight, get_farms_by_lp_denom,
+    get_latest_address_lp_weight,
     get_positions_by_receiver, CONFIG, FARMS, LAST_CLAIMED_EPOCH, LP_WEIGHT_HISTORY,
     MAX_POSITIONS_LIMIT,
 };
@@ -424,8 +425,18 @@ pub fn sync_address_lp_weight_history(
     save_last_lp_weight: bool,
 ) -> Result<(), ContractError> {
     let (earliest_epoch_id, _) = get_earliest_address_lp_weight(storage, address, lp_denom)?;
-    let (latest_epoch_id, latest_address_lp_weight) =
-        get_latest_address_lp_weight(storage, address, lp_denom, current_epoch_id)?;
+    let (latest_epoch_id, latest_address_lp_weight) = if save_last_lp_weight {
+        // only the history up to current_epoch_id is being collapsed into it. An entry recorded for a
+        // later epoch (e.g. a position opened or expanded before claiming with a past until_epoch)
+        // must stay where it is, otherwise that weight would be rewarded for epochs it didn't exist in.
+        match get_address_lp_weight_at_or_before(storage, address, lp_denom, current_epoch_id)? {
+            Some(entry) => entry,
+            // the address had no weight up to current_epoch_id, there's nothing to sync
+            None => return Ok(()),
+        }
+    } else {
+        get_latest_address_lp_weight(storage, address, lp_denom, current_epoch_id)?
+    };
 
     // remove previous entries
     for epoch_id in earliest_epoch_id..=latest_epoch_id {
